@@ -197,6 +197,147 @@ static bool do_decode(rt_case *c, const vbuf *comp, size_t expect_n, vbuf *dec, 
 	return true;
 }
 
+#ifdef WITH_REFDEC
+// C02: judge the encoder's output with the independent decoder + field checker.
+static bool refdec_audit(rt_case *c, const vbuf *comp, size_t consumed, uint64_t idx)
+{
+	rd_result R; memset(&R, 0, sizeof(R));
+	size_t limit = consumed + 4096;
+	char key[200];
+	const char *ep = ep_names[c->ep];
+	bool ok = true;
+	switch (c->ep) {
+	case EP_ALONE: rd_alone_decode(comp->p, comp->n, limit, &R); break;
+	case EP_BLOCK: case EP_BLOCK_BUF: rd_block_decode(comp->p, comp->n, (unsigned)c->cfg.check, limit, &R); break;
+	case EP_RAW: case EP_RAW_BUF: case EP_MICROLZMA: {
+		rd_filter f[4]; unsigned nf = 0; bool conv_ok = true;
+		vbuf tmp = {0};
+		const uint8_t *ip = comp->p; size_t in_n = comp->n;
+		uint64_t known = UINT64_MAX; bool allow_eopm = true;
+		if (c->ep == EP_MICROLZMA) {
+			if (comp->n < 1) { rd_result_free(&R); return true; }
+			uint8_t props = (uint8_t)~comp->p[0];
+			f[0].id = RD_FILTER_LZMA1; f[0].props[0] = props;
+			for (int i = 0; i < 4; ++i) f[0].props[1 + i] = (uint8_t)(c->cfg.lzma.dict_size >> (8 * i));
+			f[0].props_len = 5; nf = 1;
+			vbuf_append(&tmp, comp->p, comp->n); tmp.p[0] = 0x00; ip = tmp.p;
+			known = consumed; allow_eopm = false;
+			// the properties byte must be the one the options ask for
+			uint8_t want = (uint8_t)((c->cfg.lzma.pb * 5 + c->cfg.lzma.lp) * 9 + c->cfg.lzma.lc);
+			if (props != want) { hx_violation("C02", "microlzma-props-byte", idx, "first byte encodes props %u, options say %u", props, want); ok = false; }
+		} else {
+			for (unsigned i = 0; i < c->cfg.nfilters && conv_ok; ++i) {
+				uint32_t sz = 0;
+				lzma_filter lf = c->cfg.filters[i];
+				if (lf.id == LZMA_FILTER_LZMA1EXT) lf.id = LZMA_FILTER_LZMA1;
+				if (lzma_properties_size(&sz, &lf) != LZMA_OK || sz > 16) { conv_ok = false; break; }
+				f[nf].id = lf.id == LZMA_FILTER_LZMA1 ? RD_FILTER_LZMA1 : (uint64_t)lf.id;
+				f[nf].props_len = sz;
+				if (sz && lzma_properties_encode(&lf, f[nf].props) != LZMA_OK) { conv_ok = false; break; }
+				++nf;
+			}
+			if (c->lzma1ext) {
+				bool eopm = (c->cfg.lzma.ext_flags & LZMA_LZMA1EXT_ALLOW_EOPM) != 0;
+				if (!eopm) { known = consumed; allow_eopm = false; }
+			}
+		}
+		if (!conv_ok) { vbuf_free(&tmp); rd_result_free(&R); return true; }
+		rd_raw_decode(f, nf, ip, in_n, known, allow_eopm, c->cfg.lzma.preset_dict, c->cfg.lzma.preset_dict_size, limit, &R);
+		vbuf_free(&tmp);
+		break;
+	}
+	default: rd_xz_decode(comp->p, comp->n, 0, limit, &R); break;
+	}
+	hx_eval();
+	if (R.status != RD_OK) {
+		snprintf(key, sizeof(key), "refdec-rejects-encoder-output|%s", ep);
+		hx_violation("C02", key, idx, "independent decoder: %s at offset %zu: %s; cfg=%s size=%zu comp=%zu", rd_status_name(R.status), R.err_offset, R.why, c->cfg.desc, c->in.n, comp->n);
+		ok = false;
+	} else {
+		if (R.out_len != consumed || (consumed && memcmp(R.out, c->in.p, consumed))) {
+			snprintf(key, sizeof(key), "refdec-output-differs|%s", ep);
+			hx_violation("C02", key, idx, "independent decoder recovers %zu bytes, input was %zu; cfg=%s", R.out_len, consumed, c->cfg.desc);
+			ok = false;
+		}
+		if (R.consumed != comp->n) {
+			snprintf(key, sizeof(key), "trailing-or-unconsumed-bytes|%s", ep);
+			hx_violation("C02", key, idx, "independent decoder consumed %zu of %zu output bytes; cfg=%s", R.consumed, comp->n, c->cfg.desc);
+			ok = false;
+		}
+		if (R.relaxation_zone) {
+			snprintf(key, sizeof(key), "match-beyond-declared-dictionary|%s", ep);
+			hx_violation("C02", key, idx, "a match reaches farther back than the declared dictionary size; cfg=%s", c->cfg.desc);
+			ok = false;
+		}
+		for (size_t b = 0; b < R.nblocks && ok; ++b) {
+			const rd_block *B = &R.blocks[b];
+			if (B->max_distance_used > B->dict_size_declared && B->dict_size_declared != 0) {
+				snprintf(key, sizeof(key), "match-beyond-declared-dictionary|%s", ep);
+				hx_violation("C02", key, idx, "block %zu: max distance %" PRIu64 " > declared dictionary %u; cfg=%s", b, B->max_distance_used, B->dict_size_declared, c->cfg.desc);
+				ok = false;
+			}
+			bool lzma2 = B->nfilters && B->filters[B->nfilters - 1].id == RD_FILTER_LZMA2;
+			if (lzma2 && (!B->chunk_order_ok || !B->end_marker_seen || (!B->first_chunk_resets_dict && c->cfg.lzma.preset_dict == NULL))) {
+				snprintf(key, sizeof(key), "lzma2-chunk-order|%s", ep);
+				hx_violation("C02", key, idx, "block %zu: chunk order ok=%d end marker=%d first chunk resets dict=%d; cfg=%s", b, B->chunk_order_ok, B->end_marker_seen, B->first_chunk_resets_dict, c->cfg.desc);
+				ok = false;
+			}
+			if (B->chunks_uncompressed) hx_count("blocks_with_uncompressed_chunks", 1);
+			if (B->chunks > 1) hx_count("blocks_multi_chunk", 1);
+			if (B->has_comp_size) hx_count("blocks_with_size_fields", 1);
+		}
+		hx_count("refdec_blocks_audited", R.nblocks);
+		hx_count("refdec_fields_audited", R.nfields);
+		hx_count("refdec_streams_ok", 1);
+		if (is_xz(c->ep) && R.nstreams == 1) { char nm[40]; snprintf(nm, sizeof(nm), "refdec_check_%u", R.streams[0].check_id); hx_count(nm, 1); if (c->ep == EP_STREAM_MT) hx_count("refdec_mt_streams", 1); else hx_count("refdec_st_streams", 1); }
+	}
+	rd_result_free(&R);
+	return ok;
+}
+
+// bound guarantee: out_size = bound(n) must never be too small
+static void c02bound_case(uint64_t idx)
+{
+	vrng r; vrng_init(&r, A.seed, 0xC02B, idx, 0);
+	hx_case_begin(idx);
+	static const size_t base[] = { 0, 1, 2, 65535, 65536, 65537, 2u << 20, 4u << 20 };
+	size_t n = base[vrng_below(&r, 8)];
+	unsigned k = vrng_below(&r, 6);
+	if (k == 0) n = 65536 * (1 + vrng_below(&r, 40));
+	else if (k == 1) n = (2u << 20) * (1 + vrng_below(&r, 3));
+	else if (k == 2) n = vrng_logsize(&r, 5u << 20);
+	int d = (int)vrng_below(&r, 5) - 2; if ((long)n + d >= 0) n = (size_t)((long)n + d);
+	if (!A.thorough && n > (3u << 20)) n = (3u << 20) + vrng_below(&r, 5);
+	vbuf in = {0}; gen_data(&r, &in, n, vrng_chance(&r, 3, 4) ? GD_RANDOM : -1, 4096);
+	unsigned which = vrng_below(&r, 3);
+	lzma_check check = gen_check(&r);
+	vcfg cfg; gen_cfg(&r, &cfg, VCFG_XZ, 1u << 20);
+	// fast settings: the bound does not depend on them
+	if (!cfg.from_preset) { cfg.lzma.mode = LZMA_MODE_FAST; cfg.lzma.mf = LZMA_MF_HC3; cfg.lzma.depth = 4; if (cfg.lzma.nice_len > 32) cfg.lzma.nice_len = 32; }
+	size_t bound = which == 2 ? lzma_block_buffer_bound(n) : lzma_stream_buffer_bound(n);
+	lzma_ret ret = LZMA_OK; size_t pos = 0;
+	static const char *const wn[] = { "stream_buffer", "easy_buffer", "block_buffer" };
+	if (bound == 0) hx_violation("C02", "bound-returned-zero", idx, "%s bound(%zu) = 0", wn[which], n);
+	else {
+		uint8_t *out = malloc(bound);
+		lzma_block b; memset(&b, 0, sizeof(b));
+		if (which == 0) ret = lzma_stream_buffer_encode(cfg.filters, check, NULL, in.p, n, out, &pos, bound);
+		else if (which == 1) ret = lzma_easy_buffer_encode(vrng_below(&r, 3), check, NULL, in.p, n, out, &pos, bound);
+		else { b.version = 1; b.check = check; b.filters = cfg.filters; ret = lzma_block_buffer_encode(&b, NULL, in.p, n, out, &pos, bound); }
+		if (ret != LZMA_OK) {
+			char key[100]; snprintf(key, sizeof(key), "bound-too-small|%s", wn[which]);
+			hx_violation("C02", key, idx, "%s with out_size = bound(%zu) = %zu returned %s; cfg=%s", wn[which], n, bound, lzma_ret_name(ret), cfg.desc);
+		} else if (pos > bound) hx_violation("C02", "bound-exceeded", idx, "wrote %zu > bound %zu", pos, bound);
+		free(out);
+	}
+	hx_eval(); hx_count("bound_cases", 1);
+	if (pos >= n && n) hx_count("bound_cases_incompressible", 1);
+	hx_sample("c02bound %s n=%zu bound=%zu used=%zu", wn[which], n, bound, pos);
+	hx_distinct(vhash(&n, sizeof(n), vhash(&which, sizeof(which), VHASH_INIT)), n > 0);
+	vbuf_free(&in); vcfg_free(&cfg);
+}
+#endif
+
 static void gen_case(rt_case *c, vrng *r, uint64_t idx)
 {
 	memset(c, 0, sizeof(*c));
@@ -313,6 +454,9 @@ static void run_case(uint64_t idx)
 		}
 		// decode the biased one (identical anyway)
 	}
+#ifdef WITH_REFDEC
+	if (!strcmp(PROP, "C02")) (void)refdec_audit(&c, &comp, consumed, idx);
+#endif
 	ok = do_decode(&c, &comp, consumed, &dec, err, sizeof(err));
 	hx_eval();
 	if (!ok) {
@@ -440,7 +584,13 @@ int main(int argc, char **argv)
 	hx_parse(argc, argv, &A);
 	if (A.prop[0]) PROP = A.prop;
 	uint64_t idx = UINT64_MAX;
-	while (hx_next_case(&A, &idx)) { if (!strcmp(A.mode, "c06enc")) c06enc_case(idx); else run_case(idx); }
+	while (hx_next_case(&A, &idx)) {
+		if (!strcmp(A.mode, "c06enc")) c06enc_case(idx);
+#ifdef WITH_REFDEC
+		else if (!strcmp(A.mode, "c02bound")) c02bound_case(idx);
+#endif
+		else run_case(idx);
+	}
 	hx_finish();
 	return 0;
 }
